@@ -2,7 +2,10 @@ module vharness
 
 go 1.19
 
-require github.com/SKAARHOJ/rawpanel-lib v0.0.0
+require (
+	github.com/SKAARHOJ/rawpanel-lib v0.0.0
+	google.golang.org/protobuf v1.34.1
+)
 
 require (
 	github.com/SKAARHOJ/ibeam-lib-utils v1.0.0 // indirect
@@ -12,7 +15,6 @@ require (
 	github.com/sirupsen/logrus v1.9.3 // indirect
 	go.uber.org/atomic v1.11.0 // indirect
 	golang.org/x/sys v0.20.0 // indirect
-	google.golang.org/protobuf v1.34.1 // indirect
 )
 
 replace github.com/SKAARHOJ/rawpanel-lib => /repo
